@@ -90,6 +90,10 @@ pub struct Behavior {
     pub out_later: Vec<Step>,
     #[serde(default, skip_serializing_if = "Vec::is_empty")]
     pub err_later: Vec<Step>,
+    /// the helper points its stdout and stderr at /dev/null first thing (like `exec >/dev/null
+    /// 2>&1` in a script): monorail sees both pipes end while the process keeps running
+    #[serde(default, skip_serializing_if = "std::ops::Not::not")]
+    pub detach_output: bool,
 }
 
 fn is_zero(x: &u64) -> bool {
@@ -363,6 +367,9 @@ impl Env {
             }
             if b.linger_ms > 0 {
                 m.insert("linger_ms".into(), json!(b.linger_ms));
+            }
+            if b.detach_output {
+                m.insert("detach_output".into(), json!(true));
             }
             if !b.out_later.is_empty() {
                 m.insert("out_later".into(), steps_json(&b.out_later));
